@@ -9,9 +9,16 @@ ID_DOT = re.compile(r'"0x[0-9a-f]+"')
 ID_MER = re.compile(r'N\d+')
 
 
+# runs of the two escaped characters (an escaper must treat every character on its own: `\\"` is a backslash and a quote,
+# not "an already escaped quote")
+ESC_RUNS = ['\\"', '\\\\', '"\\', 'a\\"b', '\\\\"', '""', 'x\\\\y', '\\"\\"', 'C:\\"tmp"\\']
+
+
 def rand_name(rng, collide=False):
     if collide and rng.random() < 0.5:
         return rng.choice(["same", 'q"q'])
+    if rng.random() < 0.12:
+        return rng.choice(ESC_RUNS)
     return "".join(rng.choice(NAME_ALPHABET) for _ in range(rng.randrange(0, 5)))
 
 
